@@ -251,6 +251,9 @@ def main(argv=None):
         if l3.get("ran") is False and l3.get("reason", "").startswith("L3 harness crashed"):
             print("CHECKER-ERROR L3:", l3["reason"][:500])
             exit_code = exit_code or 3
+        if l3.get("ran") and l3.get("harness_errors"):
+            print("CHECKER-ERROR L3 harness errors (not violations):", str(l3["harness_errors"])[:600])
+            exit_code = exit_code or 3
 
     # ---------------- evidence
     used, executed, dropped, assumptions = set(), {}, set(), set()
